@@ -1108,7 +1108,7 @@ def run : Nat → St → Lexer → LexResult
     | some (some s', l') => run n s' l'
 
 /-- budget of state transitions for an input of `n` bytes -/
-def fuelFor (n : Nat) : Nat := 4 * n + 16
+def fuelFor (n : Nat) : Nat := 7 * n + 8
 
 def initLexer (input : Bytes) : Lexer := { input := input.toArray }
 
